@@ -74,6 +74,13 @@ func request() []byte {
 	return b
 }
 
+func imax(a, b int) int {
+	if a > b {
+		return a
+	}
+	return b
+}
+
 func sign(key int, prefix string, body []byte) []byte {
 	return keys.Sign(key, crypto.Keccak256(append([]byte(prefix), body...)))
 }
@@ -297,6 +304,37 @@ func main() {
 		}
 	}
 	mc.ParallelFor(len(jobs), func(i int) { jobs[i]() })
+	// unauthenticated gossip must not change what happens to authenticated gossip either: a guardian's genuine
+	// request / heartbeat is accepted before AND after a burst of forged ones that name it (signed by another
+	// member, by an outsider, not signed at all)
+	for _, size := range []int{1, 3, 19} {
+		gs := &common.GuardianSet{Index: 0, Keys: keys.Addrs(rng(0, size)...)}
+		g := size - 1
+		addr := keys.Addr(g).Bytes()
+		genuine := func(i int) *gossipv1.SignedObservationRequest {
+			b, _ := proto.Marshal(&gossipv1.ObservationRequest{ChainId: 2, TxHash: []byte{byte(i), byte(i >> 8), 3, 4, 5, 6, 7, 8, 9, 10, 11, 12, 13, 14, 15, 16, 17, 18, 19, 20, 21, 22, 23, 24, 25, 26, 27, 28, 29, 30, 31, 32}})
+			return &gossipv1.SignedObservationRequest{ObservationRequest: b, Signature: sign(g, reqPrefix, b), GuardianAddr: addr}
+		}
+		c := hbCase{"request", size, false, "genuine request after a burst of forged requests naming the same guardian"}
+		tryRequest(hbCase{"request", size, false, "genuine request before the burst"}, gs, genuine(0), false)
+		for i := 1; i <= 200; i++ {
+			f := genuine(i)
+			switch i % 3 {
+			case 0:
+				f.Signature = sign(outsider, reqPrefix, f.ObservationRequest)
+			case 1:
+				f.Signature = sign((g+1)%imax(size, 2), reqPrefix, f.ObservationRequest)
+			default:
+				f.Signature = make([]byte, 65)
+			}
+			if size == 1 && i%3 == 1 {
+				f.Signature = sign(outsider, reqPrefix, f.ObservationRequest)
+			}
+			tryRequest(hbCase{"request", size, false, "forged request of the burst"}, gs, f, true)
+		}
+		tryRequest(c, gs, genuine(1000), false)
+		tryRequest(c, gs, genuine(1001), false)
+	}
 	r.Set("verifier_mutants", int(evals))
 
 	// ---- heartbeat table cap: explicit-state search over (peers of guardian A, peers of guardian B)
